@@ -106,9 +106,10 @@ def showFrame (f : Frame) : String := s!"{f.first}:{f.last}:{f.simLast}"
 def showData (d : Data) : String :=
   " ".intercalate ((List.range d.rows).flatMap (fun q => (List.range d.cols).map (fun (c : Nat) => showCell (d.get q (c : Int)))))
 
-/-- a "solver" that only marks what it touched: every row over `first … simLast` gets `100*first + column` -/
-def markSolve (f : Frame) (d : Data) : Data :=
-  d.modify (fun _ c => if f.first ≤ c ∧ c ≤ f.simLast then some (some ((100 * f.first + c : Nat) : Rat)) else none)
+/-- a "solver" that only marks what it touched: every regular row over `first … simLast` gets
+`100*first + column`; the unanticipated-shock rows are left as the frame sees them (pruned) -/
+def markSolve (un : List Nat) (f : Frame) (d : Data) : Data :=
+  d.modify (fun q c => if ¬ un.contains q ∧ f.first ≤ c ∧ c ≤ f.simLast then some (some ((100 * f.first + c : Nat) : Rat)) else none)
 
 def run (p : P String) (ws : List String) : String :=
   match p ws with
@@ -133,7 +134,7 @@ def stepP : P String := do
   | "writers" => do
     let m ← word; let baseFirst ← nat; let n ← nat; let nU ← nat; let rows ← rep nU nat; let d ← dataP
     let frames := if m = "pp" then periodFrames baseFirst n else stackedFrames baseFirst n (breakPoints d rows baseFirst n)
-    pure (showData (runFrames markSolve rows frames d))
+    pure (showData (runFrames (markSolve rows) rows frames d))
   | "cert" => do
     let s ← system; let d ← dataP; let nG ← nat; let gs ← rep nG qmat
     match s.term with
